@@ -1243,6 +1243,10 @@ func c17Table(r *Report, rule string) {
 	if !r.Anchor(rule, "tor.torrents", g != nil) {
 		return
 	}
+	if !typeIs(g.Type(), "sync", "Map") {
+		r.Info(rule, "tor.torrents/not-a-sync.Map", g.Pos(), "the table is not a sync.Map any more: its insertion discipline is not judged by this rule")
+		return
+	}
 	nIns := 0
 	for _, f := range p.SrcFuncs() {
 		if relPkg(f) != "tor" {
